@@ -257,6 +257,52 @@ def abandoned_stream(dummy):
     return None
 
 
+def abandoned_behind(dummy):
+    """C13.2 end to end, the abandoned waiter NOT being the newest: stream A is throttled; while it sleeps a second
+    transfer's read B is refused (queued behind A) and A's transfer is cancelled.  A raises its transfer's error; a
+    third read C refused afterwards must wait for the reads still waiting (B) plus its own allocation - A's is gone"""
+    R.begin()
+    now, amt1, amt2, amt3, last, rate = _reals('now', 'amt1', 'amt2', 'amt3', 'last', 'rate')
+    MAX = 100
+    for c in (amt1 > 0, amt2 > 0, amt3 > 0, now > last, rate >= 0):
+        if not c:
+            return '~'
+    tr = BandwidthRateTracker()
+    tr._last_time, tr._current_rate = last, rate
+    ft = FakeTime(now)
+    bucket = LeakyBucket(MAX, time_utils=ft, rate_tracker=tr)
+    coord = Coord()
+    s1 = BandwidthLimitedStream(F.FakeFile(10, 0), bucket, coord, ft, bytes_threshold=1)
+    st = {'b': None, 'refused': False}
+
+    def behind_then_cancel(v):
+        ft.slept.append(v)
+        try:
+            bucket.consume(amt2, RequestToken())
+        except RequestExceededException as e:
+            st['b'] = e.retry_time
+            st['refused'] = True
+        coord.exception = ValueError('cancelled while waiting')
+    ft.sleep = behind_then_cancel
+    s1._bytes_seen = amt1
+    try:
+        s1._consume_through_leaky_bucket()
+        return '~'     # not throttled: nothing to abandon
+    except ValueError:
+        pass
+    if not st['refused']:
+        return '~'
+    if not (st['b'] == amt1 / MAX + amt2 / MAX):
+        return _fail('bw: retry_time is not the sum of the waiting requests\' allocated times')
+    try:
+        bucket.consume(amt3, RequestToken())
+        return '~'
+    except RequestExceededException as e:
+        if not (e.retry_time == amt2 / MAX + amt3 / MAX):
+            return _fail('bw: later request charged for a waiter that is gone (wait time never given back)')
+    return None
+
+
 def admission(dummy):
     """C13.3 one-step admission rule over the reals from an arbitrary tracker state"""
     R.begin()
@@ -429,6 +475,11 @@ OBLIGATIONS = [
          bounds='one abandoned waiter, one later request; amounts, instants, prior rate symbolic reals', real_model=True,
          encodes=['BandwidthLimitedStream._consume_through_leaky_bucket', 'LeakyBucket.consume',
                   'ConsumptionScheduler'], assumptions=['S3 reals model']),
+    dict(id='C13.2f', impl='abandoned_behind', params='dummy: int', pre=['dummy == 0'], timeout=(60, 300),
+         bounds='one abandoned waiter with a second read queued behind it, one later request; amounts, instants, '
+                'prior rate symbolic reals', real_model=True,
+         encodes=['BandwidthLimitedStream._consume_through_leaky_bucket', 'LeakyBucket.consume',
+                  'LeakyBucket.cancel_scheduled_consumption', 'ConsumptionScheduler'], assumptions=['S3 reals model']),
     dict(id='C13.3a', impl='admission', params='dummy: int', pre=['dummy == 0'], timeout=(60, 300), real_model=True,
          bounds='one step from an arbitrary tracker state (last time, rate >= 0, now > last, amt > 0: all reals)',
          encodes=['LeakyBucket.consume', '_projected_to_exceed_max_rate', 'BandwidthRateTracker.get_projected_rate',
